@@ -9,6 +9,10 @@
 //   - in the slot domain through the scheme encoders: BGV exactly, CKKS within the worst-case bound
 //     mapped through the canonical embedding; InnerSum/InnerFunction only on the documented slots;
 //   - sufficiency: the evaluator only ever holds keys for exactly the advertised Galois elements.
+//
+// Families: alg, rot, sum, sum-noP, sum-dense, trace (cases.go) and, from the coverage audit (cases_ext.go),
+// rotx (rotx.go), sumx (sumx.go), tracex (tracex.go), seq (seq.go), keylevel / keypow2 (keylevel.go); the
+// evaluator derivations they share are in derive.go.
 package c11
 
 import (
@@ -315,6 +319,8 @@ func cases(tier string, seed int64) []eng.Case {
 			}
 		}
 	}
+	// 5. families of the coverage audit (own random stream: the configurations above do not move)
+	out = append(out, extCases(tier, seed, uid)...)
 	return out
 }
 
@@ -326,14 +332,22 @@ func init() {
 			"rot: every k in [-slots-3, 2*slots+3] for N<=64, boundary and random k above, plain / hoisted / hoisted-lazy variants, input and receiver levels varied, sparse CKKS packing. " +
 			"sum: every (batch,n) with n*batch<=slots for <=64 slots (thinned to the case budget keeping boundary pairs), boundary and random pairs above, for RotateAndAdd, InnerSum, Replicate, InnerFunction, Average, PartialTracesSum. " +
 			"trace: every logN argument. " +
-			"distinct key = (kind, configuration tag, operation/variant, k class or (slots,batch,n) or trace depth, output level); " +
-			"non-trivial = alg: k (or a+b) outside [0,slots); rot: the Galois element is not 1 (a key switch happens); sum: n>=2; trace: at least one automorphism is applied.",
+			"rotx / sumx / tracex (coverage audit): about 20 rotation amounts (boundary, random, near 2^62/2^63) / 9-16 (batch,n) pairs / every trace depth (conjugate-invariant ring included) per configuration, " +
+			"each call with one calling feature: *New variant, receiver == input, used receiver (stale values and metadata, other level, previously degree 2), evaluator obtained through WithKey / ShallowCopy / keys added after construction / the BFV evaluator, " +
+			"keys from GenGaloisKeysNew(list), one advertised key removed (error or correct result), CKKS/BGV inputs in the coefficient domain, hoisted automorphisms below the level of their input, up to 8 RNS digits; " +
+			"documented refusals (missing key, empty and nil key set, degree != 1, conjugation in the conjugate-invariant ring, InnerSum arguments): an error, no panic, input intact. " +
+			"seq: programs of 6-11 steps (rotation, conjugation, slot sum, trace, level drop, switch to another ciphertext at a higher level, evaluator re-derivation) on ONE evaluator holding the union of the advertised lists, receivers = input / ciphertext of two steps before / new; every step judged in the phase domain, the end in the slot domain against the composed slot model. " +
+			"keylevel / keypow2: Galois keys generated at a LevelP below the maximum (and -1) or with a base-two decomposition: error or correct result, never garbage or a panic. " +
+			"alg additionally at logN 12..16 (quick) / ..17 (thorough). " +
+			"distinct key = (kind, configuration tag, operation/variant/feature/derivation, k class or (slots,batch,n) or trace depth, output level); " +
+			"non-trivial = alg: k (or a+b) outside [0,slots); rot: the Galois element is not 1 (a key switch happens); sum: n>=2; trace: at least one automorphism is applied; refusals and sequences: always.",
 		Cases: cases,
 		Assumptions: []string{
 			"math/big modular exponentiation and the coefficient-domain automorphism model of package ref are correct",
 			"the phase c0+c1*s is evaluated with lattigo's NTT and Montgomery product (judged by C01); CRT reconstruction is math/big",
 			"slot semantics are those of the scheme encoders (judged by C07); CKKS slot tolerances are worst-case bounds through the canonical embedding",
-			"hoisted operations and the sums built on them are exercised only with an auxiliary modulus P and keys without power-of-two decomposition (documented restriction)",
+			"hoisted operations and the sums built on them are required to be correct only with an auxiliary modulus P and keys without power-of-two decomposition at the maximum LevelP (documented restriction); outside of it they are required to refuse with an error or be correct",
+			"Trace(logN) in the conjugate-invariant ring may keep either the plaintexts with 2^logN slots (every N/2^logN-th coefficient) or the coefficient indices of the standard ring (every N/2^(logN+1)-th): the documentation leaves both readings open, both are accepted",
 		},
 	})
 }
